@@ -32,6 +32,10 @@ def stepLine (u : Unit) (line : String) : Unit × String :=
   | some "sprod", some d => match vec "x", vec "y" with
     | some x, some y => (u, sv (sprod d y x))
     | _, _ => (u, "bad-op")
+  | some "sproddiag", some d => match vec "x", vec "y" with
+    | some x, some y => (u, sv (sprodDiag d y x))
+    | _, _ => (u, "bad-op")
+  | some "ssqr", some d => match vec "y" with | some y => (u, sv (ssqr d y)) | none => (u, "bad-op")
   | some "sinv", some d => match vec "x", vec "y" with
     | some x, some y => (u, sv (sinv d y x))
     | _, _ => (u, "bad-op")
